@@ -1,5 +1,6 @@
 pub mod a;
 pub mod b;
+pub mod c;
 pub mod c03;
 pub mod c15;
 pub mod c19;
